@@ -54,16 +54,12 @@ Qed.
 
 Definition names (sc : scope) : list string := map v_name (sc_vars sc).
 
-(* the only way AddVar hands out a name that is already taken: the "n == 1" branch of
-   resolveVarNameConflict returns <name>2 without looking (finding D2) *)
-Definition numbered_two_unchecked (vs : list var) (n1 : string) : bool :=
-  (has_var vs n1) && negb (has_var vs (n1 ++ "1")) && has_var vs (n1 ++ "2").
-
-Theorem C12_fresh_partial cfg r sc name t suffix r' sc' idx :
+(* The name AddVar picks is never the name of a variable already in the scope (after the
+   import-driven renames and the numbering rename): unconditional since the repair of D2. *)
+Theorem C12_fresh cfg r sc name t suffix r' sc' idx :
   add_var cfg r sc name t suffix = Ok (r', sc', idx) ->
   exists vs2 v, sc_vars sc' = (vs2 ++ [v])%list /\ idx = List.length vs2 /\
-    (has_var vs2 (v_name v) = false \/
-     exists n1, v_name v = n1 ++ "2" /\ has_var vs2 (n1 ++ "2") = true).
+                has_var vs2 (v_name v) = false.
 Proof.
   unfold add_var. destruct (populate cfg r (refs t) []) as [[r1 imps]| | | |]; try discriminate.
   cbn [bind]. destruct (_ && _); [discriminate|].
@@ -74,17 +70,17 @@ Proof.
     destruct (first_free _ vs1 n1 1) as [k|] eqn:FF; [|discriminate].
     destruct (first_free_spec _ _ _ _ _ FF) as [FREE GE].
     destruct k as [|[|k]]; [lia| |].
-    + destruct (search_var vs1 n1); [|discriminate]. cbn [bind].
+    + destruct (first_free _ _ n1 2) as [n|] eqn:F2; [|discriminate]. cbn [bind].
+      destruct (first_free_spec _ _ _ _ _ F2) as [FREE2 _].
       intros E. inversion E; subst. do 2 eexists. split; [reflexivity|]. split; [reflexivity|].
-      cbn [v_name]. destruct (has_var (rename_first vs1 n1 (n1 ++ "1")) (n1 ++ "2")) eqn:H2; [|left; reflexivity].
-      right. exists n1. split; [reflexivity|exact H2].
+      exact FREE2.
     + cbn [bind]. intros E. inversion E; subst. do 2 eexists. split; [reflexivity|]. split; [reflexivity|].
-      left. exact FREE.
+      exact FREE.
   - cbn [bind]. intros E. inversion E; subst. do 2 eexists. split; [reflexivity|]. split; [reflexivity|].
-    left. cbn [v_name]. apply orb_false_elim in CONF. tauto.
+    cbn [v_name]. apply orb_false_elim in CONF. tauto.
 Qed.
 
-(* ---- refutations: the full statement is false of the code, with evaluated witnesses ---- *)
+(* ---- what remains false of the code, and what the repairs changed: evaluated witnesses ---- *)
 
 Definition mk_cfg := mkRcfg "example.com/x" [].
 Definition run_params (ps : list (string * ty)) : outcome (list string) :=
@@ -92,14 +88,19 @@ Definition run_params (ps : list (string * ty)) : outcome (list string) :=
 Definition t_string := TBasic "string" KString false.
 Definition t_int := TBasic "int" KInt false.
 
-(* D2: M(s2 int, _ string, _ string) yields s2 twice *)
-Example C12_number_two_refuted :
-  run_params [("s2", t_int); ("_", t_string); ("_", t_string)] = Ok ["s2"; "s1"; "s2"].
+(* D2 (repaired): M(s2 int, _ string, _ string) no longer yields s2 twice *)
+Example C12_number_two_fixed :
+  run_params [("s2", t_int); ("_", t_string); ("_", t_string)] = Ok ["s2"; "s1"; "s3"].
 Proof. vm_compute. reflexivity. Qed.
 
-(* D4: a user parameter named mock or callInfo is kept although the body needs the name *)
+(* D4 (repaired for the two names the body declares): mock and callInfo are renamed *)
+Example C12_user_reserved_fixed :
+  run_params [("mock", t_int); ("callInfo", t_string)] = Ok ["mockMoqParam"; "callInfoMoqParam"].
+Proof. vm_compute. reflexivity. Qed.
+
+(* D4 (remaining): a user parameter may still capture a predeclared identifier the body uses *)
 Example C12_user_reserved_refuted :
-  run_params [("mock", t_int); ("callInfo", t_string)] = Ok ["mock"; "callInfo"].
+  run_params [("append", t_int); ("nil", t_string)] = Ok ["append"; "nil"].
 Proof. vm_compute. reflexivity. Qed.
 
 (* D5: distinct parameters, equal record fields *)
@@ -107,10 +108,11 @@ Example C12_fields_refuted :
   run_params [("a", t_int); ("A", t_int)] = Ok ["a"; "A"] /\ exported "a" = exported "A".
 Proof. vm_compute. split; reflexivity. Qed.
 
-(* D22: the numbering dereferences nil after an import renamed the variable it expects *)
-Example C12_numbering_crash_refuted :
-  add_vars mk_cfg [] empty_scope
+(* D22 (repaired): the numbering no longer dereferences nil after an import renamed the
+   variable it expected, and the names stay distinct *)
+Example C12_numbering_crash_fixed :
+  bind (add_vars mk_cfg [] empty_scope
            [("", t_string); ("", t_string); ("", TNamed (Some (mkPkg "example.com/s1" "s1")) "T" []);
-            ("", t_string)] ""
-  = Crash "method_scope.go: conflict.Name on nil *Var".
+            ("", t_string)] "") (fun '(_, sc) => Ok (map v_name (sc_vars sc)))
+  = Ok ["s1MoqParam"; "s2"; "t"; "s3"].
 Proof. vm_compute. reflexivity. Qed.
